@@ -107,7 +107,10 @@ fn case_fn(case: &mut Case, base: &Path) -> CaseResult {
                     injected.push(Injected { file: rel, kind: "schema", stage: Stage::Check, what: "duplicate type definition" });
                 }
                 2 => {
-                    gp.schema_files[i].1 = format!("{text}scalar WithUnknownDirective{i} @noSuchDirective\n");
+                    // half of the time behind a block-string description whose lines start with multi-byte
+                    // white space (U+3000, NBSP): the human renderer quotes and re-indents these lines
+                    let desc = if case.ch.flip() { "\"\"\"\n\u{3000}wide line\n  two\n\u{a0}\u{a0}nbsp\n\"\"\"\n" } else { "" };
+                    gp.schema_files[i].1 = format!("{text}{desc}scalar WithUnknownDirective{i} @noSuchDirective\n");
                     injected.push(Injected { file: rel, kind: "schema", stage: Stage::Check, what: "unknown directive" });
                 }
                 _ => {
